@@ -40,22 +40,11 @@ theorem commit_changes_only_staged (vl : Bool) (ord : MapOrder) (hv : ord.Valid)
     s'.staged = s.staged ∧
     ∀ name, s'.conf.get.find name ≠ s.conf.get.find name →
       ∃ k v x, (k, v) ∈ s.staged ∧ storageKey P k v = .ok (.field name x) := by
-  unfold storageCommit at h
-  split at h
-  · injection h with _ h; subst h; exact ⟨rfl, fun _ hne => absurd rfl hne⟩
-  · split at h
-    · simp at h
-    · rename_i c' hc
-      have key : ∀ name, c'.get.find name ≠ s.conf.get.find name →
-          ∃ k v x, (k, v) ∈ s.staged ∧ storageKey P k v = .ok (.field name x) := by
-        intro name hne
-        obtain ⟨k, v, x, hm, hx⟩ := applyAll_changed_field _ _ _ _ _ name hc hne
-        exact ⟨k, v, x, (hv s.staged).mem_iff.mp hm, hx⟩
-      split at h
-      · split at h
-        · simp at h
-        · injection h with _ h; subst h; exact ⟨rfl, key⟩
-      · injection h with _ h; subst h; exact ⟨rfl, key⟩
+  rcases storageCommit_ok_inv P h with ⟨_, rfl⟩ | ⟨_, c', hc, rfl, _⟩
+  · exact ⟨rfl, fun _ hne => absurd rfl hne⟩
+  · refine ⟨rfl, fun name hne => ?_⟩
+    obtain ⟨k, v, x, hm, hx⟩ := applyAll_changed_field _ _ _ _ _ name hc hne
+    exact ⟨k, v, x, (hv s.staged).mem_iff.mp hm, hx⟩
 
 /-! ## rejected_changes_nothing -/
 
@@ -93,41 +82,17 @@ theorem only_submitted_fields_change (ct : Contract) (vld : Bool) (ord : MapOrde
     (m : SMap Str) (c c' : Cfg) (out : Bool) (h : update P ct vld ord caller (some m) c = (.ok out, c')) (name : Str)
     (hne : c'.get.find name ≠ c.get.find name) :
     ∃ k v x, (k, v) ∈ m ∧ ct.keyf P k v = .ok (.field name x) := by
-  unfold update at h
-  split at h
-  · simp at h
-  · split at h
-    · simp at h
-    · rename_i c'' hc
-      have hc' : c' = c'' := by
-        split at h
-        · split at h
-          · simp at h
-          · injection h with _ h; exact h.symm
-        · injection h with _ h; exact h.symm
-      subst hc'
-      obtain ⟨k, v, x, hm, hx⟩ := applyAll_changed_field _ _ _ _ _ name hc hne
-      exact ⟨k, v, x, (hv m).mem_iff.mp hm, hx⟩
+  obtain ⟨_, hc, _⟩ := update_ok_inv P h
+  obtain ⟨k, v, x, hm, hx⟩ := applyAll_changed_field _ _ _ _ _ name hc hne
+  exact ⟨k, v, x, (hv m).mem_iff.mp hm, hx⟩
 
 theorem only_submitted_costs_change (ct : Contract) (vld : Bool) (ord : MapOrder) (hv : ord.Valid) (caller : Str)
     (m : SMap Str) (c c' : Cfg) (out : Bool) (h : update P ct vld ord caller (some m) c = (.ok out, c')) (name : Str)
     (hne : c'.cost.find name ≠ c.cost.find name) :
     ∃ k v x, (k, v) ∈ m ∧ ct.keyf P k v = .ok (.cost name x) := by
-  unfold update at h
-  split at h
-  · simp at h
-  · split at h
-    · simp at h
-    · rename_i c'' hc
-      have hc' : c' = c'' := by
-        split at h
-        · split at h
-          · simp at h
-          · injection h with _ h; exact h.symm
-        · injection h with _ h; exact h.symm
-      subst hc'
-      obtain ⟨k, v, x, hm, hx⟩ := applyAll_changed_cost _ _ _ _ _ name hc hne
-      exact ⟨k, v, x, (hv m).mem_iff.mp hm, hx⟩
+  obtain ⟨_, hc, _⟩ := update_ok_inv P h
+  obtain ⟨k, v, x, hm, hx⟩ := applyAll_changed_cost _ _ _ _ _ name hc hne
+  exact ⟨k, v, x, (hv m).mem_iff.mp hm, hx⟩
 
 /-- a field write of minersc / storagesc `set` is to the submitted key itself, which is a row of the settings table whose
 type has a `set` case, whose parsed value `x` is what that case's parser returned, and whose setter has a case for it -/
@@ -164,13 +129,8 @@ theorem switchKey_field_in_table (cases : List KeyCase) (deflt : List String) (p
   have hcost : ∀ pfx fns k v, costValue P pfx fns k v ≠ .ok (.field name x) := by
     intro pfx fns k v hc
     unfold costValue at hc
-    split at hc
-    · simp at hc
-    · split at hc
-      · split at hc
-        · simp at hc
-        · split at hc <;> simp at hc
-      · simp at hc
+    repeat' split at hc
+    all_goals simp at hc
   unfold switchKey at h
   split at h
   · rename_i c hc
@@ -211,26 +171,20 @@ theorem globals_only_mutable_change (ord : MapOrder) (hv : ord.Valid) (caller : 
         · subst ha; exact ⟨b, List.mem_cons_self, hk⟩
         · obtain ⟨v, hm, hx⟩ := ih _ _ h (by rw [SMap.find_insert_ne _ _ _ _ ha]; exact hne)
           exact ⟨v, List.mem_cons_of_mem _ hm, hx⟩
-  unfold updateGlobals at h
-  split at h
-  · simp at h
-  · split at h
-    · simp at h
-    · rename_i f hf
-      injection h with _ h; subst h
-      obtain ⟨v, hm, hx⟩ := aux _ _ _ hf hne
-      refine ⟨rfl, v, (hv m).mem_iff.mp hm, ?_⟩
-      unfold globalsKey at hx
-      split at hx
-      · simp at hx
-      · rename_i e he
-        split at hx
-        · simp at hx
-        · rename_i hmut
-          have hem := List.mem_of_find?_eq_some he
-          have hek := List.find?_some he
-          simp only [decide_eq_true_eq] at hek
-          exact ⟨e, hem, hek, by simpa using hmut, hx⟩
+  obtain ⟨_, f, hf, rfl⟩ := updateGlobals_ok_inv P h
+  obtain ⟨v, hm, hx⟩ := aux _ _ _ hf hne
+  refine ⟨rfl, v, (hv m).mem_iff.mp hm, ?_⟩
+  unfold globalsKey at hx
+  split at hx
+  · simp at hx
+  · rename_i e he
+    split at hx
+    · simp at hx
+    · rename_i hmut
+      have hem := List.mem_of_find?_eq_some he
+      have hek := List.find?_some he
+      simp only [decide_eq_true_eq] at hek
+      exact ⟨e, hem, hek, by simpa using hmut, hx⟩
 
 /-- what `isCost` keys do in minersc / storagesc: *any* name after `cost.` is written — the settings table is not consulted. -/
 theorem setKey_cost_any_name (tbl : List Entry) (disp : List Dispatch) (k v : Str) (i : Int)
@@ -241,10 +195,10 @@ theorem setKey_cost_any_name (tbl : List Entry) (disp : List Dispatch) (k v : St
 the minersc settings table, yet `update_settings` accepts it and stores a cost entry `bogus`
 (finding `C48:miner-unknown-cost-key-accepted`, same for storagesc). -/
 theorem unknown_cost_name_accepted :
-    findEntry Generated.C48.miner (str% "cost.bogus") = none ∧
-    minerKey Parsers.go (str% "cost.bogus") (str% "7") = .ok (.cost (str% "bogus") 7) ∧
-    findEntry Generated.C48.storage (str% "cost.bogus") = none ∧
-    storageKey Parsers.go (str% "cost.bogus") (str% "7") = .ok (.cost (str% "bogus") 7) := by
+    (findEntry Generated.C48.miner (str% "cost.bogus")).isNone = true ∧
+    (minerKey Parsers.go (str% "cost.bogus") (str% "7")).toOption = some (.cost (str% "bogus") 7) ∧
+    (findEntry Generated.C48.storage (str% "cost.bogus")).isNone = true ∧
+    (storageKey Parsers.go (str% "cost.bogus") (str% "7")).toOption = some (.cost (str% "bogus") 7) := by
   decide +kernel
 
 /-! ## only_parsable_and_valid -/
@@ -252,46 +206,23 @@ theorem unknown_cost_name_accepted :
 /-- **valid**: an entry point that calls `validate` before saving never stores a configuration that fails it. -/
 theorem valid_after_update (ct : Contract) (ord : MapOrder) (caller : Str) (input : Input) (c c' : Cfg) (out : Bool)
     (h : update P ct true ord caller input c = (.ok out, c')) : ct.validate c' = none := by
-  unfold update at h
-  split at h
-  · simp at h
-  · split at h
-    · simp at h
-    · split at h
-      · simp at h
-      · simp only [if_true] at h
-        split at h
-        · simp at h
-        · rename_i hv; injection h with _ h; subst h; exact hv
+  cases input with
+  | none => unfold update at h; split at h <;> simp at h
+  | some m => exact (update_ok_inv P h).2.2 rfl
 
 /-- storagesc `commit_settings_changes` (which validates): same. -/
 theorem valid_after_commit (ord : MapOrder) (s s' : Storage) (out : Bool) (hne : s.staged ≠ [])
     (h : storageCommit P true ord s = (.ok out, s')) : Contract.validate .storage s'.conf = none := by
-  unfold storageCommit at h
-  split at h
-  · rename_i he; cases hs : s.staged <;> simp_all
-  · split at h
-    · simp at h
-    · simp only [if_true] at h
-      split at h
-      · simp at h
-      · rename_i hv; injection h with _ h; subst h; exact hv
+  rcases storageCommit_ok_inv P h with ⟨he, _⟩ | ⟨_, c', _, rfl, hv⟩
+  · exact absurd he hne
+  · exact hv rfl
 
 /-- storagesc `update_settings` in a branch that saves and validates (not today's code, see `storage_saves_unvalidated`) -/
 theorem valid_after_storage_update (ord : MapOrder) (caller : Str) (m : SMap Str) (s s' : Storage) (out : Bool)
     (hm : m ≠ []) (h : storageUpdate P true true ord caller (some m) s = (.ok out, s')) :
     Contract.validate .storage s'.conf = none := by
-  unfold storageUpdate at h
-  split at h
-  · simp at h
-  · split at h
-    · cases m <;> simp_all
-    · split at h
-      · simp at h
-      · simp only [if_true] at h
-        split at h
-        · simp at h
-        · rename_i hv; injection h with _ h; subst h; exact hv
+  obtain ⟨_, c', _, _, hc, hv⟩ := storageUpdate_ok_inv P hm h
+  rw [hc]; exact hv rfl rfl
 
 /-- storagesc `update_settings` in a branch that does not save: the configuration is untouched (only staged). -/
 theorem storage_update_without_save_keeps_conf (vl : Bool) (ord : MapOrder) (caller : Str) (input : Input) (s : Storage) :
@@ -306,26 +237,21 @@ theorem all_keys_accepted (ct : Contract) (hs : ct.stops = noStop) (vld : Bool) 
     (caller : Str) (m : SMap Str) (c c' : Cfg) (out : Bool)
     (h : update P ct vld ord caller (some m) c = (.ok out, c')) :
     ∀ k v, (k, v) ∈ m → ∃ w, ct.keyf P k v = .ok w := by
-  unfold update at h
-  split at h
-  · simp at h
-  · split at h
-    · simp at h
-    · rename_i c'' hc
-      rw [hs] at hc
-      have hb := applyAll_ok_all_accepted _ _ _ _ hc
-      intro k v hm
-      have hm' : (k, v) ∈ ord m := (hv m).mem_iff.mpr hm
-      cases hk : ct.keyf P k v with
-      | ok w => exact ⟨w, rfl⟩
-      | error e =>
-        exfalso
-        have : (k, e) ∈ badKeys (ct.keyf P) (ord m) := by
-          unfold badKeys
-          rw [List.mem_filterMap]
-          exact ⟨(k, v), hm', by simp [hk]⟩
-        rw [hb] at this
-        simp at this
+  obtain ⟨_, hc, _⟩ := update_ok_inv P h
+  rw [hs] at hc
+  have hb := applyAll_ok_all_accepted _ _ _ _ hc
+  intro k v hm
+  have hm' : (k, v) ∈ ord m := (hv m).mem_iff.mpr hm
+  cases hk : ct.keyf P k v with
+  | ok w => exact ⟨w, rfl⟩
+  | error e =>
+    exfalso
+    have : (k, e) ∈ badKeys (ct.keyf P) (ord m) := by
+      unfold badKeys
+      rw [List.mem_filterMap]
+      exact ⟨(k, v), hm', by simp [hk]⟩
+    rw [hb] at this
+    simp at this
 
 /-- which entry points validate before they save — read off the call order extracted from the Go source -/
 theorem validating_entry_points :
@@ -346,7 +272,7 @@ def vestingCfg0 : Cfg := ⟨[(str% "owner_id", .str (str% "aa")), (str% "min_loc
 
 /-- negation witness of *only valid values* for vestingsc: `updateConfig` does not call `validate` (unless the
 generated call order says it does — then the general theorem `valid_after_update` applies): the owner's
-`min_duration = 0s` is stored although `validate` rejects it (finding `C48:vesting-saved-invalid-config`). -/
+`min_duration = 0s` is stored although `validate` rejects it (finding `C48:vesting-update-saved-invalid-config`). -/
 theorem vesting_saves_unvalidated :
     Contract.validates .vesting = true ∨
     (Contract.validate .vesting vestingCfg0 = none ∧
@@ -376,7 +302,7 @@ def badDelegates : SMap Str := [(str% "max_delegates", str% "0")]
 /-- negation witness for storagesc after the `demeter` fork: `update_settings` saves the configuration in the
 `after` branch without `validate` (unless the generated call order says otherwise): `max_delegates = 0` is stored.
 `commit_settings_changes` does *not* cover it — it then fails validation on every call (the staged map still
-holds the value) and the stored configuration stays invalid (finding `C48:storage-saved-invalid-config`). -/
+holds the value) and the stored configuration stays invalid (finding `C48:storage-update-saved-invalid-config`). -/
 theorem storage_saves_unvalidated :
     (storageBranch true).2 = true ∨
     (Contract.validate .storage storageCfg0 = none ∧ (storageBranch true).1 = true ∧
@@ -401,16 +327,7 @@ theorem storage_prefork_commit_covers :
 theorem first_error_mem_badKeys (ct : Contract) (vld : Bool) (ord : MapOrder) (hv : ord.Valid) (caller : Str)
     (m : SMap Str) (c : Cfg) (k : Str) (e : KeyErr) (c' : Cfg)
     (h : update P ct vld ord caller (some m) c = (.key k e, c')) : (k, e) ∈ badKeys (ct.keyf P) m := by
-  unfold update at h
-  split at h
-  · simp at h
-  · split at h
-    · rename_i k' e' hc
-      injection h with h _; injection h with h1 h2; subst h1; subst h2
-      exact ((badKeys_perm _ (hv m)).mem_iff).mp (applyAll_error_mem _ _ _ _ _ hc)
-    · split at h
-      · split at h <;> simp at h
-      · simp at h
+  exact ((badKeys_perm _ (hv m)).mem_iff).mp (applyAll_error_mem _ _ _ _ _ (update_key_inv P h))
 
 /-- … and every offending key *is* reported under some enumeration (contracts without early loop exit): the driver
 therefore prints the whole set, and the harness computes the same set from the real code key by key. -/
@@ -451,7 +368,7 @@ theorem validate_congr (ct : Contract) {a b : Cfg} (h : Cfg.Equiv a b) : ct.vali
   unfold Contract.validate
   congr 1
   cases ct <;>
-    simp only [Contract.checks, minerChecks, storageChecks, faucetChecks, vestingChecks, zcnChecks, Cfg.int, Cfg.dec, Cfg.owner, hv]
+    (simp only [Contract.checks, minerChecks, storageChecks, faucetChecks, vestingChecks, zcnChecks, Cfg.int, Cfg.dec, Cfg.owner, hv]; try rfl)
 
 /-- **order_independent_result_partial**. Full statement (false, see the three witnesses below):
 `∀ ord₁ ord₂ valid, update … ord₁ … = update … ord₂ …`.
@@ -595,27 +512,21 @@ theorem updated_globals_in_force_everywhere (ord : MapOrder) (hv : ord.Valid) (c
           injection hab with h1 h2; subst h1; subst h2
           rw [(aux r _ _ h).2 a hn]
           exact SMap.find_insert_self _ _ _
-  unfold updateGlobals at h
-  split at h
-  · simp at h
-  · split at h
-    · simp at h
-    · rename_i f hf
-      injection h with _ h; subst h
-      have hm' : (k, v) ∈ ord m := (hv m).mem_iff.mpr hm
-      have hu' : ∀ v', (k, v') ∈ ord m → v' = v := fun v' h' => hu v' ((hv m).mem_iff.mp h')
-      refine ⟨aux2 _ _ _ hf hm' hu', ?_⟩
-      have hx := (aux _ _ _ hf).1 k v hm'
-      unfold globalsKey at hx
-      split at hx
-      · simp at hx
-      · rename_i e he
-        split at hx
-        · simp at hx
-        · have hem := List.mem_of_find?_eq_some he
-          have hek := List.find?_some he
-          simp only [decide_eq_true_eq] at hek
-          exact ⟨e, hem, hek, hx⟩
+  obtain ⟨_, f, hf, rfl⟩ := updateGlobals_ok_inv P h
+  have hm' : (k, v) ∈ ord m := (hv m).mem_iff.mpr hm
+  have hu' : ∀ v', (k, v') ∈ ord m → v' = v := fun v' h' => hu v' ((hv m).mem_iff.mp h')
+  refine ⟨aux2 _ _ _ hf hm' hu', ?_⟩
+  have hx := (aux _ _ _ hf).1 k v hm'
+  unfold globalsKey at hx
+  split at hx
+  · simp at hx
+  · rename_i e he
+    split at hx
+    · simp at hx
+    · have hem := List.mem_of_find?_eq_some he
+      have hek := List.find?_some he
+      simp only [decide_eq_true_eq] at hek
+      exact ⟨e, hem, hek, hx⟩
 
 /-! ## ties to the generated file: what the hand-written part of the model relies on -/
 
@@ -642,6 +553,17 @@ theorem validate_check_counts :
       [("faucetsc", (faucetChecks default).length), ("minersc", (minerChecks default).length),
        ("storagesc", (storageChecks default).length), ("vestingsc", (vestingChecks default).length),
        ("zcnsc", (zcnChecks default).length)] := by
+  decide +kernel
+
+/-- the conditions of every Go `validate`, as source text in order — the hand-transcribed `…Checks` of the model follow this
+list line by line; an edit of a condition in the Go source breaks this theorem and the model has to be revisited. -/
+theorem validate_src_as_modelled : Generated.C48.validateSrc = [
+  ("faucetsc", ["gn.PourAmount < 1", "gn.PourAmount > gn.MaxPourAmount", "gn.MaxPourAmount > gn.PeriodicLimit", "gn.PeriodicLimit > gn.GlobalLimit", "toSeconds(gn.IndividualReset) < 1", "gn.GlobalReset < gn.IndividualReset"]),
+  ("minersc", ["gn.MinN < 1", "gn.MaxN < gn.MinN", "gn.MinS < 1", "gn.MaxS < gn.MinS", "gn.MaxDelegates <= 0", "gn.NumSharderDelegatesRewarded < 0", "gn.NumMinerDelegatesRewarded < 0", "gn.NumShardersRewarded < 0"]),
+  ("storagesc", ["conf.TimeUnit <= 1*time.Second", "conf.ValidatorReward < 0.0 || 1.0 < conf.ValidatorReward", "conf.BlobberSlash < 0.0 || 1.0 < conf.BlobberSlash", "conf.CancellationCharge < 0.0 || 1.0 < conf.CancellationCharge", "conf.MaxBlobbersPerAllocation <= 0", "conf.MinBlobberCapacity < 0", "conf.MaxChallengeCompletionRounds < 0", "conf.HealthCheckPeriod <= 0", "conf.MinAllocSize < 0", "conf.MaxWritePrice < conf.MinWritePrice", "conf.StakePool.KillSlash < 0 || conf.StakePool.KillSlash > 1", "conf.FreeAllocationSettings.DataShards < 0", "conf.FreeAllocationSettings.ParityShards < 0", "conf.FreeAllocationSettings.Size < 0", "!conf.FreeAllocationSettings.ReadPriceRange.isValid()", "!conf.FreeAllocationSettings.WritePriceRange.isValid()", "conf.FreeAllocationSettings.ReadPoolFraction < 0 || 1 < conf.FreeAllocationSettings.ReadPoolFraction", "conf.ValidatorsPerChallenge <= 0", "conf.NumValidatorsRewarded <= 0", "conf.MaxBlobberSelectForChallenge <= 0", "conf.MaxStake < conf.MinStake", "conf.MaxDelegates < 1", "conf.MaxCharge < 0", "conf.MaxCharge > 1.0", "len(conf.OwnerId) == 0", "conf.BlockReward.Gamma.A <= 0", "conf.BlockReward.Gamma.B <= 0", "conf.BlockReward.Gamma.Alpha <= 0", "conf.BlockReward.Zeta.Mu <= 0", "conf.BlockReward.Zeta.I <= 0", "conf.BlockReward.Zeta.K <= 0"]),
+  ("vestingsc", ["toSeconds(c.MinDuration) < 1", "toSeconds(c.MaxDuration) <= toSeconds(c.MinDuration)", "c.MaxDestinations < 1", "c.MaxDescriptionLength < 1", "c.OwnerId == \"\""]),
+  ("zcnsc", ["gn.MinStakeAmount < 1", "gn.MaxStakeAmount < 1", "gn.MinMintAmount < 1", "gn.MaxFee < 1", "gn.MinAuthorizers < 1", "gn.MinBurnAmount < 1", "gn.PercentAuthorizers < 0", "gn.OwnerId == \"\"", "gn.MaxDelegates <= 0", "gn.HealthCheckPeriod <= 0"])
+] := by
   decide +kernel
 
 end ZChain.Gov
